@@ -198,4 +198,54 @@ def writeTaper (byTag : Bool) (tags : List Nat) (k : Nat) : Option Nat :=
 /-- `geo.by_tag [tag]`: position of the object with that tag -/
 def readTaper (tags : List Nat) (t : Nat) : Option Nat := tags.idxOf? t
 
+/-! ### distributed loads: `--skin-effect-conductivity`, `--skin-effect-resistivity`, `--insulation-load` -/
+
+/-- the three option kinds; conductivity and resistivity build the same load class -/
+inductive DKind where
+  | skinCond | skinRes | coat
+deriving Repr, DecidableEq, Inhabited
+
+/-- the Python class of the load built from an option of that kind (`l.__class__`) -/
+def DKind.isCoat : DKind → Bool
+  | .coat => true
+  | _ => false
+
+/-- one option: kind, parameter token, optional geo object tag -/
+structure DOpt where
+  kind : DKind
+  par : Nat
+  tag : Option Nat
+deriving Repr, DecidableEq, Inhabited
+
+/-- one `Distributed_Load` object in `Mininec.loads`: its geo object and the `all_wires` flag -/
+structure DLoad where
+  kind : DKind
+  par : Nat
+  obj : Nat
+  allWires : Bool
+deriving Repr, DecidableEq, Inhabited
+
+/-- `main`: an option without tag builds one load per geo object (`all_wires = True`), an option
+with a tag builds one load on that object -/
+def readDist (tags : List Nat) (opts : List DOpt) : List DLoad :=
+  opts.flatMap fun o =>
+    match o.tag with
+    | none => tags.map fun t => ⟨o.kind, o.par, t, true⟩
+    | some t => [⟨o.kind, o.par, t, false⟩]
+
+/-- `Mininec.as_cmdline`: every load is written, except that of the loads one untagged option
+produced only the first is (`allOnly`, the repaired rule); the former rule skipped every later
+load of a class already written -/
+def writeDist (allOnly : Bool) : List Bool → List DLoad → List DOpt
+  | _, [] => []
+  | seen, l :: r =>
+    if (l.allWires || !allOnly) && seen.contains l.kind.isCoat then writeDist allOnly seen r
+    else ⟨l.kind, l.par, if l.allWires then none else some l.obj⟩ :: writeDist allOnly (l.kind.isCoat :: seen) r
+
+/-- option lists `main` accepts as far as the writer depends on it: an untagged option is the
+first of its load class (`Only one skin-effect load per geo object`) -/
+def distValid : List Bool → List DOpt → Bool
+  | _, [] => true
+  | seen, o :: r => (o.tag.isSome || !seen.contains o.kind.isCoat) && distValid (o.kind.isCoat :: seen) r
+
 end Pmn.Cmd
